@@ -561,10 +561,14 @@ def judge_answer(sim, ev, rec):
             if not filled:
                 add(sim, rec, "C20", "unsigned-returned-as-signed.assertion",
                     "signature %s; tool=%s" % ("absent" if filled is None else "empty", rec.get("tool")))
+    enc_faulted = any(f.get("op") == "encrypt" for f in tf)
+    conf_props = ["C17"] + (["C20"] if enc_faulted else [])
     if asked_protect["encrypt"] and can_encrypt and not p.get("advice") and not p.get("pefim"):
-        if m["assertions"]:
-            add(sim, rec, "C20" if "encrypt" in faulted_ops else "C17", "plain-assertion-returned-as-encrypted",
-                "n_plain=%d tool=%s" % (len(m["assertions"]), rec.get("tool")))
+        wrapped_plain = sum(1 for e in m["encrypted"] if any(t.endswith("}Assertion") for t in e["plain_children"]))
+        if m["assertions"] or wrapped_plain:
+            for cp in (["C20"] if enc_faulted else ["C17"]):
+                add(sim, rec, cp, "plain-assertion-returned-as-encrypted",
+                    "n_plain=%d inside-EncryptedAssertion-wrapper=%d tool=%s" % (len(m["assertions"]), wrapped_plain, rec.get("tool")))
     # ---- C17: confidentiality of what was encrypted
     if asked_protect["encrypt"] and can_encrypt:
         asked = msg.get("asked") or {}
@@ -588,7 +592,8 @@ def judge_answer(sim, ev, rec):
                 pass
         leaked = [mk for mk in ms if any(mk in d for d in decodings)]
         if leaked:
-            add(sim, rec, "C17", "plaintext-leak", "markers in clear: %r" % leaked[:3])
+            for cp in conf_props:
+                add(sim, rec, cp, "plaintext-leak", "markers in clear: %r" % leaked[:3])
         if not (p.get("advice") or p.get("pefim")):
             names = list((asked.get("identity") or {}).keys())
             leaked_names = [n for n in names if any(('FriendlyName="%s"' % n) in d for d in decodings)]
